@@ -24,7 +24,9 @@ ASSUMPTIONS = [
     "formalism agreement of the reference itself is C04's subject (tolerance here 1e-8 relative)",
 ]
 BOUNDS = {
-    "quick": "2 masks x PSF kind alternating x 5 object lists x 2 formalism settings x 48 slot assignments; 9 events (4 read orders x fresh/reused objects + interleaved pair); histories to depth 3",
+    "quick": "2 masks x PSF kind alternating x 6 object lists (one of function objects only) x 2 formalism settings x 48 slot assignments; 9 events (4 read orders x "
+             "fresh/reused objects + interleaved pair) + with the w-tilde slot: a second image sharing the tables, tables from a noise-map scaled by 1+4e-6 and by 3 "
+             "(must be rejected or transparent); histories to depth 3; plus every slot subset on the dataset in units of 1e-9 (depth 2)",
     "thorough": "6 masks x both PSF kinds x 8 object lists x 2 formalism settings x 48 slot assignments; histories to depth 4",
 }
 
@@ -55,12 +57,19 @@ LISTS = [
     [["rectB", "func", "del"], [True, False, True]],
     [["func", "rectA"], [True, True]],
     [["funcS", "rectA", "func"], [False, True, False]],
+    # lists holding linear function objects only: the factory must fall back to the mapping formalism whatever the preloads say
+    [["func", "funcB"], [False, False]],
+    [["funcS"], [False]],
 ]
+# dimension of each output in powers of the data units (data and noise scaled together): floors of the absolute tolerances
+DIM = {"data_vector": -1, "curvature_matrix": -2, "regularization_matrix": -2, "curvature_reg_matrix": -2, "reconstruction": 1,
+       "mapped_reconstructed_data": 1}
+SMALL_UNITS = 1e-9
 
 
 def cases(tier, seed):
     masks = [0b111111111, 0b101110111] if tier == "quick" else [0b111111111, 0b101110111, 0b000111010, 0b110011001, 0b010111010, 0b111101111]
-    lists = [LISTS[i] for i in (0, 1, 3, 4, 8)] if tier == "quick" else LISTS
+    lists = [LISTS[i] for i in (0, 1, 3, 4, 8, 9)] if tier == "quick" else LISTS
     depth = 3 if tier == "quick" else 4
     for mi, bits in enumerate(masks):
         for li, ol in enumerate(lists):
@@ -79,12 +88,19 @@ def cases(tier, seed):
                                   ["mapper_operated_mapping_matrix_dict", "linear_func_operated_mapping_matrix_dict", "data_linear_func_matrix_dict", "w_tilde"]]
                     for sub in extra:
                         yield [[5, 5], [3, 3], bits, kind, 1 + (bits + li) % 2, ol, wt, None, list(sub), depth, seed]
+                    # the same dataset in very small units (noise-map ~1e-9): every slot subset and the dictionary slots
+                    if mi == 0 or tier == "thorough":
+                        subs = [list(sub) for r in range(len(SLOTS) + 1) for sub in itertools.combinations(SLOTS, r)] + [list(e) for e in extra]
+                        for sub in subs:
+                            yield [[5, 5], [3, 3], bits, kind, 1 + (bits + li) % 2, ol, wt, None, sub, depth - 1, seed, SMALL_UNITS]
 
 
 class Graph:
     def __init__(self, case):
         self.case = case
-        frame, ks, bits, kind, sub, (kinds, regs), wt, uw, slots, depth, seed = case
+        frame, ks, bits, kind, sub, (kinds, regs), wt, uw, slots, depth, seed = case[:11]
+        self.units = case[11] if len(case) > 11 else 1.0
+        self.all_func = all(k.startswith("func") for k in kinds)
         self.name = "C15-graph"
         self.wt, self.uw, self.slots, self.depth = wt, uw, slots, depth
         self.events = []
@@ -94,11 +110,15 @@ class Graph:
         self.events.append(("inv-pair[interleaved reads,fresh-objs]", self._mk_pair()))
         if "regularization_matrix_only" in slots:
             self.events.append(("two Preloads in succession, the second array re-using the freed address of the first", self._mk_addr()))
+        if "w_tilde" in slots:
+            self.events.append(("inv on a second image (same noise-map, PSF, mask) sharing the Preloads", self._mk_second_image()))
+            for fac in (1.0 + 4e-6, 3.0):
+                self.events.append(("inv with w_tilde tables preloaded from a noise-map scaled by %r: rejected or transparent" % fac, self._mk_mismatch(fac)))
         # reference without preloads, on an independent identical dataset
         fx, objs = self._fresh()
         # the formalism the factory will actually pick: the preload slot can only switch w-tilde OFF
-        self.eff = bool(wt and (uw is None or uw))
-        st = fix_inv.settings(fx["aa"], self.eff, diag=1e-3)
+        self.eff = bool(wt and (uw is None or uw)) and not self.all_func
+        st = self._st(fx["aa"], self.eff)
         inv = fx["aa"].Inversion(dataset=fx["ds"], linear_obj_list=objs, settings=st)
         self.ref = {k: np.array(getattr(inv, k), dtype=float).copy() for k in OUT}
         # the solution inherits round-off of F, D amplified by the conditioning of F+H (unregularized objects only carry
@@ -113,21 +133,38 @@ class Graph:
         self.ref_other = None
         if self.eff != bool(wt):
             fx2, objs2 = self._fresh()
-            inv2 = fx2["aa"].Inversion(dataset=fx2["ds"], linear_obj_list=objs2, settings=fix_inv.settings(fx2["aa"], wt, diag=1e-3))
+            inv2 = fx2["aa"].Inversion(dataset=fx2["ds"], linear_obj_list=objs2, settings=self._st(fx2["aa"], wt))
             self.ref_other = {k: np.array(getattr(inv2, k), dtype=float).copy() for k in OUT}
 
-    def _fresh(self):
-        frame, ks, bits, kind, sub, (kinds, regs), wt, uw, slots, depth, seed = self.case
-        fx = fix_inv.make_dataset(frame, ks, bits, psf_kind=kind, seed=seed, sub=sub)
-        objs = [fix_inv.make_obj(fx, k, reg=r, seed=seed) for k, r in zip(kinds, regs)]
-        return fx, objs
+    def _st(self, aa, wt):
+        return fix_inv.settings(aa, wt, diag=1e-3 / self.units ** 2)
+
+    def _objs(self, fx, coefficient=1.0):
+        frame, ks, bits, kind, sub, (kinds, regs), wt, uw, slots, depth, seed = self.case[:11]
+        # the regularization matrix goes with the coefficient squared: scaled with the units the system is an exact rescaling
+        return [fix_inv.make_obj(fx, k, reg=r, seed=seed, coefficient=coefficient / self.units) for k, r in zip(kinds, regs)]
+
+    def _fresh(self, noise_factor=1.0):
+        frame, ks, bits, kind, sub, (kinds, regs), wt, uw, slots, depth, seed = self.case[:11]
+        fx = fix_inv.make_dataset(frame, ks, bits, psf_kind=kind, seed=seed, sub=sub, units=self.units, noise_factor=noise_factor)
+        return fx, self._objs(fx)
+
+    def _floor(self, k):
+        return self.units ** DIM.get(k, 0)
+
+    def _differs(self, k, val, ref):
+        """0.0 if val equals ref within the tolerance of output k, else the largest difference."""
+        scale = max(self._floor(k), float(np.abs(ref).max()) if ref.size else 0.0)
+        if val.shape == ref.shape and np.allclose(val, ref, rtol=self.tol[k], atol=self.tol[k] * scale):
+            return 0.0
+        return float(np.abs(val - ref).max()) if val.shape == ref.shape else float("inf")
 
     def build(self):
         fx, objs = self._fresh()
         aa = fx["aa"]
         # source of the preloaded quantities: an identical, separately built dataset and objects
         fxs, objs_s = self._fresh()
-        src = aa.Inversion(dataset=fxs["ds"], linear_obj_list=objs_s, settings=fix_inv.settings(aa, self.wt, diag=1e-3))
+        src = aa.Inversion(dataset=fxs["ds"], linear_obj_list=objs_s, settings=self._st(aa, self.wt))
         kw = {}
         if "curvature_matrix" in self.slots:
             kw["curvature_matrix"] = np.array(src.curvature_matrix).copy()
@@ -160,12 +197,8 @@ class Graph:
     def _mk(self, oname, reuse):
         def fn(ctx):
             aa = ctx["aa"]
-            if reuse:
-                objs = ctx["objs"]
-            else:
-                frame, ks, bits, kind, sub, (kinds, regs), wt, uw, slots, depth, seed = self.case
-                objs = [fix_inv.make_obj(ctx["fx"], k, reg=r, seed=seed) for k, r in zip(kinds, regs)]
-            st = fix_inv.settings(aa, self.wt, diag=1e-3)
+            objs = ctx["objs"] if reuse else self._objs(ctx["fx"])
+            st = self._st(aa, self.wt)
             inv = aa.Inversion(dataset=ctx["ds"], linear_obj_list=objs, settings=st, preloads=ctx["pre"])
             got = {}
             for k in ORDERS[oname]:
@@ -179,11 +212,9 @@ class Graph:
     def _mk_pair(self):
         def fn(ctx):
             aa = ctx["aa"]
-            frame, ks, bits, kind, sub, (kinds, regs), wt, uw, slots, depth, seed = self.case
             invs = []
             for _ in range(2):
-                objs = [fix_inv.make_obj(ctx["fx"], k, reg=r, seed=seed) for k, r in zip(kinds, regs)]
-                invs.append(aa.Inversion(dataset=ctx["ds"], linear_obj_list=objs, settings=fix_inv.settings(aa, self.wt, diag=1e-3), preloads=ctx["pre"]))
+                invs.append(aa.Inversion(dataset=ctx["ds"], linear_obj_list=self._objs(ctx["fx"]), settings=self._st(aa, self.wt), preloads=ctx["pre"]))
             got = [{}, {}]
             for k in PAIR_ORDER:
                 for i, inv in enumerate(invs):  # A.k, B.k, then the next quantity
@@ -200,12 +231,11 @@ class Graph:
         """
         def fn(ctx):
             aa = ctx["aa"]
-            frame, ks, bits, kind, sub, (kinds, regs), wt, uw, slots, depth, seed = self.case
 
             def objs_with(c):
-                return [fix_inv.make_obj(ctx["fx"], k, reg=r, seed=seed, coefficient=c) for k, r in zip(kinds, regs)]
+                return self._objs(ctx["fx"], coefficient=c)
 
-            st = lambda: fix_inv.settings(aa, self.wt, diag=1e-3)  # noqa: E731
+            st = lambda: self._st(aa, self.wt)  # noqa: E731
             H1 = np.array(aa.Inversion(dataset=ctx["ds"], linear_obj_list=objs_with(1.0), settings=st()).regularization_matrix).copy()
             H3 = np.array(aa.Inversion(dataset=ctx["ds"], linear_obj_list=objs_with(3.0), settings=st()).regularization_matrix)
             want = float(aa.Inversion(dataset=ctx["ds"], linear_obj_list=objs_with(3.0), settings=st()).log_det_regularization_matrix_term)
@@ -225,7 +255,74 @@ class Graph:
 
         return fn
 
+    def _mk_second_image(self):
+        """
+        The w-tilde tables depend on noise-map, PSF and mask only: a dataset with ANOTHER image and the same noise-map, PSF and mask
+        that shares the Preloads object must give the values of its own no-preload inversion (or be rejected). Returns, per output,
+        0.0 or the difference from that reference.
+        """
+        def fn(ctx):
+            aa, fx = ctx["aa"], ctx["fx"]
+            ds = ctx["ds"]
+
+            def second():
+                shape = ds.data.native.shape
+                new = np.array(ds.data.native) * 1.7 + 0.3 * self.units * (np.arange(shape[0] * shape[1]) % 3).reshape(shape)
+                return aa.Imaging(data=aa.Array2D(values=new, mask=fx["mask"]), noise_map=aa.Array2D(values=np.array(ds.noise_map.native).copy(), mask=fx["mask"]),
+                                  psf=aa.Kernel2D.no_mask(values=fx["kernel"].copy(), pixel_scales=fx["mask"].pixel_scales), over_sampling=ds.over_sampling,
+                                  use_normalized_psf=False)
+
+            want_inv = aa.Inversion(dataset=second(), linear_obj_list=self._objs(fx), settings=self._st(aa, self.eff))
+            want = {k: np.array(getattr(want_inv, k), dtype=float).copy() for k in OUT}
+            try:
+                inv = aa.Inversion(dataset=second(), linear_obj_list=self._objs(fx), settings=self._st(aa, self.wt), preloads=self._pre_for_second(ctx))
+                got = {k: np.array(getattr(inv, k), dtype=float).copy() for k in ORDERS["natural"]}
+            except aa.exc.InversionException:
+                return [np.array([0.0]) for _ in OUT]
+            return [np.array([self._differs(k, got[k], want[k])]) for k in OUT]
+
+        return fn
+
+    def _pre_for_second(self, ctx):
+        # only the slots that do not depend on the image: the w-tilde tables (and the formalism switch) of the shared Preloads
+        kw = {"w_tilde": ctx["pre"].w_tilde}
+        if self.uw is not None:
+            kw["use_w_tilde"] = self.uw
+        return ctx["aa"].Preloads(**kw)
+
+    def _mk_mismatch(self, fac):
+        """
+        Tables preloaded from a dataset whose noise-map differs by the factor `fac` were NOT computed from an identical dataset; the
+        library's consistency check exists to reject them. Accepted outcomes: InversionException, or values equal to the no-preload ones.
+        """
+        def fn(ctx):
+            aa = ctx["aa"]
+            fxo, _ = self._fresh(noise_factor=fac)
+            kw = {"w_tilde": fxo["ds"].w_tilde}
+            if self.uw is not None:
+                kw["use_w_tilde"] = self.uw
+            try:
+                inv = aa.Inversion(dataset=ctx["ds"], linear_obj_list=self._objs(ctx["fx"]), settings=self._st(aa, self.wt), preloads=aa.Preloads(**kw))
+                got = {k: np.array(getattr(inv, k), dtype=float).copy() for k in ORDERS["natural"]}
+            except aa.exc.InversionException:
+                return [np.array([0.0]) for _ in OUT]
+            return [np.array([self._differs(k, got[k], self.ref[k])]) for k in OUT]
+
+        return fn
+
     def check(self, ctx, idx, res, hist_labels):
+        label0 = self.events[idx][0]
+        if label0.startswith("inv on a second image") or label0.startswith("inv with w_tilde tables preloaded from a noise-map scaled"):
+            if res[0] != "ok":
+                return [{"finding": "inversion-with-preloads:exception", "msg": "%s after %s: %s" % (label0, hist_labels, res[1:])}]
+            viol = []
+            for k, d in zip(OUT, res[1]):
+                if float(d[0]) != 0.0:
+                    what = "second-image-sharing-w-tilde-preload" if label0.startswith("inv on a second image") else "mismatched-w-tilde-tables-accepted"
+                    viol.append({"finding": "not-transparent:%s:%s" % (k, what),
+                                 "msg": "slots=%s use_w_tilde slot=%s setting w_tilde=%s units=%g; %s after %s: %s differs from the no-preload value by %g"
+                                        % (self.slots, self.uw, self.wt, self.units, label0, hist_labels, k, float(d[0]))})
+            return viol
         if self.events[idx][0].startswith("two Preloads in succession"):
             if res[0] != "ok":
                 return [{"finding": "inversion-with-preloads:exception", "msg": "%s: %s" % (self.events[idx][0], res[1:])}]
@@ -241,7 +338,7 @@ class Graph:
             return viol
         for k, val in zip(OUT * (len(res[1]) // len(OUT)), res[1]):
             ref = self.ref[k]
-            scale = max(1.0, float(np.abs(ref).max()) if ref.size else 1.0)
+            scale = max(self._floor(k), float(np.abs(ref).max()) if ref.size else 0.0)
             if val.shape != ref.shape or not np.allclose(val, ref, rtol=self.tol[k], atol=self.tol[k] * scale):
                 which = "first-inversion" if not hist_labels else "reuse"
                 viol.append({"finding": "not-transparent:%s:%s" % (k, which),
@@ -250,7 +347,7 @@ class Graph:
             if self.ref_other is not None:
                 ro = self.ref_other[k]
                 tol = 1e-5 if k == "reconstruction" else 1e-6
-                if val.shape != ro.shape or not np.allclose(val, ro, rtol=tol, atol=tol * max(1.0, float(np.abs(ro).max()) if ro.size else 1.0)):
+                if val.shape != ro.shape or not np.allclose(val, ro, rtol=tol, atol=tol * max(self._floor(k), float(np.abs(ro).max()) if ro.size else 0.0)):
                     viol.append({"finding": "factory-choice-changes-values:%s" % k,
                                  "msg": "use_w_tilde slot=%s vs setting %s: %s differs by %s" % (self.uw, self.wt, k, dom.maxdiff(val, ro))})
         return viol
